@@ -131,6 +131,7 @@ func (r *runner) fixtures() {
 		rc := replayCase{Kind: "fixture", Detail: id}
 		// 1. transaction hashes declared by the network
 		verified := vge(b.Block.ProtocolVersion, 0, 11, 0)
+		synthetic := false
 		for _, tx := range b.Block.Transactions {
 			spec := txSpec(tx)
 			switch {
@@ -145,9 +146,18 @@ func (r *runner) fixtures() {
 				mh := evalLine(rep[0], "hash")
 				r.c.Count("fixture-tx/"+id+"/"+tx.Hash().String(), true)
 				stats["tx:"+strings.SplitN(spec, "|", 2)[0]]++
-				if !mh.Equal(tx.Hash()) {
-					r.c.Violation("fixture:tx-hash:"+strings.SplitN(spec, "|", 2)[0],
-						fmt.Sprintf("%s: network-declared transaction hash %s, model %s (%s)", id, tx.Hash(), &mh, spec), rc, true)
+				jh, jerr := core.TransactionHash(tx, net)
+				switch {
+				case jerr != nil || !jh.Equal(&mh):
+					r.c.Violation("fixture:tx-hash:model-vs-juno:"+strings.SplitN(spec, "|", 2)[0],
+						fmt.Sprintf("%s: juno %s (%v), model %s (%s)", id, &jh, jerr, &mh, spec), rc, true)
+				case !mh.Equal(tx.Hash()):
+					// juno and the model agree with each other but not with the file: the fixture is not a genuine
+					// block of that network (hand-made test data); juno's VerifyBlockHash rejects it as well
+					stats["tx:declared-hash-not-reproducible-by-juno-either(synthetic fixture):"+id]++
+					synthetic = true
+				default:
+					stats["tx-hash-equals-network-declared"]++
 				}
 			}
 		}
@@ -166,12 +176,17 @@ func (r *runner) fixtures() {
 			stats["block:no-sequencer-address(fallback, outside model)"]++
 			continue
 		}
+		if synthetic {
+			stats["block:synthetic-fixture(skipped)"]++
+			continue
+		}
 		mh := askBlock(r.or, b.Block, b.Update.StateDiff)
-		// commitments in the feeder response
-		if nz(resp.TransactionCommitment) && !resp.TransactionCommitment.Equal(&mh.TxC) {
+		// commitments in the feeder response (for blocks older than 0.13.2 the feeder serves commitments recomputed
+		// in the later Poseidon format, not the ones inside the block hash: compared only from 0.13.2 on)
+		if post0132 && nz(resp.TransactionCommitment) && !resp.TransactionCommitment.Equal(&mh.TxC) {
 			r.c.Violation("fixture:tx-commitment", fmt.Sprintf("%s (%s): feeder %s model %s", id, verStr, resp.TransactionCommitment, &mh.TxC), rc, true)
 		}
-		if nz(resp.EventCommitment) && !resp.EventCommitment.Equal(&mh.EvC) {
+		if post0132 && nz(resp.EventCommitment) && !resp.EventCommitment.Equal(&mh.EvC) {
 			r.c.Violation("fixture:event-commitment", fmt.Sprintf("%s (%s): feeder %s model %s", id, verStr, resp.EventCommitment, &mh.EvC), rc, true)
 		}
 		if post0132 && nz(resp.ReceiptCommitment) && !resp.ReceiptCommitment.Equal(&mh.RcC) {
@@ -180,7 +195,11 @@ func (r *runner) fixtures() {
 		if post0132 && hasSU && nz(resp.StateDiffCommitment) && !resp.StateDiffCommitment.Equal(&mh.SdH) {
 			r.c.Violation("fixture:state-diff-hash", fmt.Sprintf("%s (%s): feeder %s model %s", id, verStr, resp.StateDiffCommitment, &mh.SdH), rc, true)
 		}
-		stats["block:commitments-compared:"+verStr]++
+		if post0132 {
+			stats["block:commitments-equal-feeder:"+verStr]++
+		} else if nz(resp.TransactionCommitment) && !resp.TransactionCommitment.Equal(&mh.TxC) {
+			stats["block:feeder-commitment-of-later-format(pre-0.13.2 block)"]++
+		}
 		if post0132 && !hasSU {
 			stats["block:no-state-update(hash not checkable)"]++
 			continue
@@ -241,7 +260,7 @@ func (r *runner) fixtures() {
 				defer func() {
 					if p := recover(); p != nil {
 						verr = fmt.Errorf("panic: %v", p)
-						stats["tamper:panic-in-VerifyBlockHash"]++
+						stats["tamper:panic-in-VerifyBlockHash:"+id+":"+name+": "+fmt.Sprint(p)]++
 					}
 				}()
 				_, verr = core.VerifyBlockHash(t.Block, net, t.Update.StateDiff, core.TrieBackend)
